@@ -85,8 +85,18 @@ fn main() {
         o.max_window = 8;
         let case = gen_case(&mut rng, &o);
         let bytes = case.model.to_bytes();
-        let wsconst: String = (0..rng.below(4)).map(|_| WS[rng.below(7)]).collect();
+        let mut wsconst: String = (0..rng.below(4)).map(|_| WS[rng.below(7)]).collect();
         let mut texts: Vec<String> = case.texts.iter().map(|t| to_string(t)).collect();
+        if k % 100 == 17 {
+            // one token longer than 65 535 bytes: a run of digits kept together by the D filter,
+            // and the single-token fallback for a text the core rejects
+            if !wsconst.contains('D') {
+                wsconst.push('D');
+            }
+            texts.push("7".repeat(rng.urange(65_531, 70_000)));
+            texts.push(format!("{}\0", "あ".repeat(rng.urange(21_900, 23_000))));
+            ctx.count("texts_with_token_longer_than_65530_bytes", 2);
+        }
         {
             // characters whose normalised form has another character type (the four dashes -> katakana ー) next to kana
             let a = vgen::text::alphabet_norm_heavy(&mut rng, 5, k % 2 == 0);
